@@ -190,7 +190,10 @@ def check_conc(pid, tier, seed):
         ss = gen_schedules(prog, consts, (400, 3000)[ti], seed + pi, stats)
         pick, cov = select(ss, (40, 300)[ti])
         cover = [30] if closer else list(range(1, consts["NReaders"] + 1))
-        cs = gen_cover_schedules(prog, consts, (cover if ti == 0 else []), stats, (150, 1500)[ti], timeout=(300, 1500)[ti])
+        cconsts = consts if ti == 1 else dict(consts, NReaders=1)      # quick: one reader keeps the breadth-first export small
+        if ti == 0:
+            cover = [30] if closer else [1]
+        cs = gen_cover_schedules(prog, cconsts, (cover if ti == 0 else []), stats, (120, 1500)[ti], timeout=(240, 1500)[ti])
         pick = pick + [s for s in cs if s not in pick]
         for s in cs:
             cov |= ordered_pairs(s)
@@ -210,7 +213,7 @@ def check_conc(pid, tier, seed):
     nfree = (12, 120)[ti]
     for k in range(nfree):
         n = rng.randint(12, 40)
-        prog = [rng.choice(["store", "store", "store", "delh", "delt"]) for _ in range(n)]
+        prog = [rng.choice(["store", "store", "store", "delh", "delt", "jump"]) for _ in range(n)]
         free.append({"id": "%s-free%d" % (pid, k), "mode": "free", "world": ("real" if k % 2 == 0 else "sim"), "prog": prog,
                      "nreaders": 4, "readsEach": (150, 400)[ti], "withCloser": closer, "withStable": True,
                      "segSize": rng.choice([60, 80, 200, 4096]), "sched": [], "seed": seed * 1000 + k,
